@@ -10,10 +10,21 @@ def _indices_in_block(ctx, cfg, fn, bi):
     b = fn.blocks[bi]
     found = set()
 
-    def scan_chain(ch):
+    def idx_of(ch):
         for i, x in enumerate(ch):
             if x == "cipherstates" and i + 1 < len(ch) and ch[i + 1] in ("0", "1"):
-                found.add(int(ch[i + 1]))
+                return int(ch[i + 1])
+        return None
+
+    def scan_chains(chs):
+        """a use through a reference that may point at either index is attributed to the (role-guarded)
+        blocks that created the reference, not to the merge block that uses it"""
+        idxs = {idx_of(ch) for ch in chs} - {None}
+        if len(idxs) == 1:
+            found.update(idxs)
+
+    def scan_chain(ch):
+        scan_chains([ch])
 
     for s in b["stmts"]:
         if s["k"] == "assign":
@@ -26,21 +37,15 @@ def _indices_in_block(ctx, cfg, fn, bi):
             places.append(s["place"])
             for pl in places:
                 if pl["proj"]:
-                    for root, proj in pts.resolve_place(pl):
-                        if root[0] == "ext" and root[1] == 1:
-                            scan_chain(fields_only(proj))
+                    scan_chains([fields_only(proj) for root, proj in pts.resolve_place(pl) if root[0] == "ext" and root[1] == 1])
     t = b["term"]
     if t["k"] == "call":
         # callee summaries (CipherStates::rekey_initiator etc.)
         ok, err, _ = E.call_writes(fn, pts, t)
-        for (ai, ch) in ok | err:
-            if ai == 0:
-                scan_chain(ch)
+        scan_chains([ch for (ai, ch) in ok | err if ai == 0])
         for a in t["args"]:
             if a["k"] in ("copy", "move") and a["place"]["proj"]:
-                for root, proj in pts.resolve_place(a["place"]):
-                    if root[0] == "ext" and root[1] == 1:
-                        scan_chain(fields_only(proj))
+                scan_chains([fields_only(proj) for root, proj in pts.resolve_place(a["place"]) if root[0] == "ext" and root[1] == 1])
     return found
 
 
@@ -63,12 +68,14 @@ def role_table(ctx, cfg, fn):
     return table
 
 
-def check_transport_roles(ctx, cfg, ops_filter=None, rule="role-index"):
+def check_transport_roles(ctx, cfg, ops_filter=None, rule="role-index", kinds=("stateful", "stateless")):
     """compare every role-dispatching transport function with spec/roles.py; returns #entries"""
     from spec import roles as SR
     F = ctx.facts[cfg]
     n = 0
-    for tyname, ops in (("transportstate::TransportState", SR.STATEFUL_OPS), ("stateless_transportstate::StatelessTransportState", SR.STATELESS_OPS)):
+    for kind, tyname, ops in (("stateful", "transportstate::TransportState", SR.STATEFUL_OPS), ("stateless", "stateless_transportstate::StatelessTransportState", SR.STATELESS_OPS)):
+        if kind not in kinds:
+            continue
         for op in ops:
             if ops_filter and op not in ops_filter:
                 continue
